@@ -280,7 +280,9 @@ def runPass (p : PassT) (c : Ctx) (fuel : Nat) : Except String (Option Ctx) :=
     if p.rules.size = 0 then .ok (some c) else
     let c := c.restartAt s0
     let bound := (if p.maxLoop = 0 then 1 else p.maxLoop) * (c.seg.numGlyphs.toNat + c.maxSize.toNat + 2)
-    match ruleLoop p fuel c s0 p.maxLoop 0 with
+    -- (the recursion of `ruleLoop` needs fuel; `bound` iterations are provably enough – Proofs/LoopBound – so the `fuel`
+    -- argument only matters when it is larger)
+    match ruleLoop p (max fuel (bound + 1)) c s0 p.maxLoop 0 with
     | .error w => .error w
     | .ok (none, _) => .ok none
     | .ok (some c, it) => .ok (some (noteLoop c it bound))
